@@ -254,7 +254,9 @@ func visitInstr(fr *frame, instr ssa.Instruction) continuation {
 		fr.i.sched.send(fr.get(instr.Chan).(*gchan), fr.get(instr.X))
 
 	case *ssa.Store:
-		store(mustDeref(instr.Addr.Type()), fr.get(instr.Addr).(*value), fr.get(instr.Val))
+		addr := fr.get(instr.Addr).(*value)
+		raceAccess(fr, mustDeref(instr.Addr.Type()), addr, true)
+		store(mustDeref(instr.Addr.Type()), addr, fr.get(instr.Val))
 
 	case *ssa.If:
 		succ := 1
